@@ -352,12 +352,130 @@ var panicClassified = map[string]struct {
 	"Delete node not contained in slice":              {1, "fork of astutil: API misuse"},
 	"InsertAfter node not contained in slice":         {1, "fork of astutil: API misuse"},
 	"InsertBefore node not contained in slice":        {1, "fork of astutil: API misuse"},
-	"value:mustUnquote:err":                           {2, "import path literal of a parsed ImportSpec is always a valid Go string"},
+	"value:mustUnquote:err":                           {2, "reached only after every import path of the file has been unquoted without error (RUnquoteValidated)"},
 	"value:Apply:r":                                   {1, "re-panics foreign panics only"},
 	"value:(*application).apply:abort":                {1, "abort sentinel recovered in Apply"},
 	"value:(*printer).printf:localError{…}":           {1, "debug printer (dst.Print), same as go/ast: recovered in fprint"},
 	"value:Fprint:e":                                  {1, "debug printer: re-panics foreign panics only"},
 	"value:fprint:e":                                  {1, "debug printer: re-panics foreign panics only"},
+}
+
+// RUnquoteValidated (R-NOPANIC): go/parser returns partial files together with its error, and the
+// decorator decorates them on purpose; in such a file an import spec can have a path that is not
+// a string literal (`import fmt`, `import "a\qb"`). A function that unquotes its argument and
+// panics on a syntax error (mustUnquote) may therefore be applied to an import path only in a
+// function that has validated the paths first: before the first such call there is a pass over
+// the file's import specs that unquotes every path with strconv.Unquote and leaves the function
+// with an error when one fails.
+func (e *Env) RUnquoteValidated() {
+	n := 0
+	for _, path := range []string{load.PkgDecorator, load.PkgGoast} {
+		pkg := e.Prog.Pkg(path)
+		info := pkg.TypesInfo
+		// functions that panic when strconv.Unquote of their parameter fails
+		panicky := map[types.Object]bool{}
+		for _, fd := range load.AllFuncDecls(pkg) {
+			if fd.Body == nil || fd.Type.Params == nil || len(fd.Type.Params.List) != 1 {
+				continue
+			}
+			unq, pan := false, false
+			ast.Inspect(fd.Body, func(nd ast.Node) bool {
+				if call, ok := nd.(*ast.CallExpr); ok {
+					if funcKey(calleeFunc(info, call)) == "strconv.Unquote" {
+						unq = true
+					}
+					if id, ok := call.Fun.(*ast.Ident); ok && id.Name == "panic" {
+						pan = true
+					}
+				}
+				return true
+			})
+			if unq && pan {
+				panicky[info.Defs[fd.Name]] = true
+			}
+		}
+		isPathValue := func(x ast.Expr) bool {
+			se, ok := ast.Unparen(x).(*ast.SelectorExpr)
+			if !ok || se.Sel.Name != "Value" {
+				return false
+			}
+			pe, ok := ast.Unparen(se.X).(*ast.SelectorExpr)
+			return ok && pe.Sel.Name == "Path"
+		}
+		for _, fd := range load.AllFuncDecls(pkg) {
+			if fd.Body == nil {
+				continue
+			}
+			first := token.NoPos
+			ast.Inspect(fd.Body, func(nd ast.Node) bool {
+				if call, ok := nd.(*ast.CallExpr); ok && len(call.Args) == 1 {
+					if fn := calleeFunc(info, call); fn != nil && panicky[fn] {
+						hit := false
+						ast.Inspect(call.Args[0], func(m ast.Node) bool {
+							if x, ok := m.(ast.Expr); ok && isPathValue(x) {
+								hit = true
+							}
+							return true
+						})
+						if hit && (first == token.NoPos || call.Pos() < first) {
+							first = call.Pos()
+						}
+					}
+				}
+				return true
+			})
+			if first == token.NoPos {
+				continue
+			}
+			n++
+			cx := schema.CtxFor(e.Prog, path)
+			undoR := cx.InstallReaching(fd)
+			// the validation: a top-level statement before `first` that holds a checked
+			// strconv.Unquote of an import path, followed by a top-level `if err != nil { return err }`
+			// on the variable it records the failure in
+			validated := false
+			for i, st := range fd.Body.List {
+				if st.End() > first {
+					break
+				}
+				var errVar types.Object
+				ast.Inspect(st, func(m ast.Node) bool {
+					as, ok := m.(*ast.AssignStmt)
+					if !ok || len(as.Rhs) != 1 {
+						return true
+					}
+					// invalid = fmt.Errorf(…) / errors.New(…) under a failed strconv.Unquote(x.Path.Value)
+					if id, ok := as.Lhs[0].(*ast.Ident); ok && len(as.Lhs) == 1 {
+						if v, ok := info.ObjectOf(id).(*types.Var); ok && types.Identical(v.Type(), types.Universe.Lookup("error").Type()) {
+							if pc, okp := pathCond(cx, fd.Body.List, as); okp && strings.Contains(pc, "strconv.Unquote(") && strings.Contains(pc, ".Path.Value") {
+								errVar = v
+							}
+						}
+					}
+					return true
+				})
+				if errVar == nil {
+					continue
+				}
+				for _, later := range fd.Body.List[i+1:] {
+					if later.End() > first {
+						break
+					}
+					if is, ok := later.(*ast.IfStmt); ok {
+						if checks, _ := condChecksNonNil(info, is.Cond, errVar); checks {
+							if okB, _ := errBranchOK(info, is.Body.List, errVar); okB {
+								validated = true
+							}
+						}
+					}
+				}
+			}
+			undoR()
+			e.Run.Check("R-NOPANIC", fmt.Sprintf("%s: import paths are unquoted by a panicking helper only after they have been validated", load.FuncName(fd)), e.Prog.Pos(first), validated,
+				"a function that panics on a malformed string literal is applied to an import path without an earlier pass that unquotes every path with strconv.Unquote and returns the error: go/parser returns files whose import path is not a string literal (`import fmt`) together with its error, the decorator decorates them, and restoring (or decorating with a resolver) panics with \"invalid syntax\"")
+		}
+	}
+	e.Run.Analysed("functions that unquote import paths with a panicking helper", n)
 }
 
 // RPanicInventory: every explicit panic in the packages reachable from parse/print entry points
@@ -478,6 +596,7 @@ func init() {
 		e.RCover("restore", e.dstNodeNames(), true)
 		e.RMapsAllocated()
 		e.RPanicInventory()
+		e.RUnquoteValidated()
 		e.RNilFile()
 		e.RNilResults()
 		e.RIndex()
